@@ -195,6 +195,8 @@ def _dispatch(case, fac, info):
 
         by = {s: c for s, c in case["by_size"]}
         sc = {s: v for s, v in case["scale"]}
+        if case["seed"] % 2:
+            sc = {s: sc[s] for s in reversed(list(sc))}  # the two dicts need not list the sizes in the same order
         kw = {}
         if not case["defaults"]:
             kw["correlated"] = case["correlated"]
